@@ -159,6 +159,23 @@ pub struct Sink {
     failures: Vec<Value>,
     rule: String,
     extra: BTreeMap<String, Value>,
+    finished: bool,
+}
+
+/// Safety net: if the harness itself panics outside `catch` (an oracle indexing by offsets the implementation reported,
+/// a formatter, an unwrap on implementation output), what has been collected so far is still written out, together with a
+/// failure that points at the case being evaluated -- a crash of the harness must not hide the input that caused it.
+impl Drop for Sink {
+    fn drop(&mut self) {
+        if !self.finished && std::thread::panicking() {
+            let last = self.descs.len().saturating_sub(1);
+            if !self.descs.is_empty() {
+                self.failures.push(json!({"case": last, "what": "the harness panicked while evaluating the implementation's output for this case or while preparing the next one: the output does not have the shape the oracle relies on (offsets outside the text, missing morphemes, ...)", "class": "", "by": "harness-crash"}));
+            }
+            self.extra.insert("harness_crashed".to_string(), json!(true));
+            self.write_out();
+        }
+    }
 }
 
 impl Sink {
@@ -188,6 +205,7 @@ impl Sink {
             failures: vec![],
             rule: String::new(),
             extra: BTreeMap::new(),
+            finished: false,
         }
     }
     pub fn rule(&mut self, r: &str) {
@@ -231,7 +249,11 @@ impl Sink {
     pub fn fail(&mut self, id: usize, what: &str, class: &str) {
         self.failures.push(json!({"case": id, "what": what, "class": class, "by": "rust-oracle"}));
     }
-    pub fn finish(self) {
+    pub fn finish(mut self) {
+        self.write_out();
+        self.finished = true;
+    }
+    fn write_out(&mut self) {
         // only cases that have a Coq term go into shards, each with its global id
         let with_term: Vec<usize> = (0..self.terms.len()).filter(|i| !self.terms[*i].is_empty()).collect();
         let nshards = (with_term.len() + self.shard_size - 1) / self.shard_size;
